@@ -83,6 +83,12 @@
 //! }
 //! ```
 
+#[cfg(folo_verif)]
+#[path = "../../testing/verif/sync_shim.rs"]
+mod verif_sync;
+#[cfg(folo_verif)]
+#[doc(hidden)]
+pub mod __verif;
 mod auto;
 mod constants;
 pub mod futures;
